@@ -20,8 +20,8 @@
     through the other; [nextDescending] even puts [seeks[pos]] into [current] twice): here
     [k_seeks] is the list of location records and [k_cur] a list of INDICES into it, and
     [markRead] is a functional update at an index.  Timestamps are [Z]; the code only compares
-    them except for [t-1]/[t+1] in [locations], mirrored with the int64 wrap ([sub1_64],
-    [add1_64]).
+    them except for [t-1]/[t+1] in [locations], which the code guards against int64 wrap-around at
+    MinInt64/MaxInt64 (empty initial read range): [init_rmin], [init_rmax].
 
     Sorting.  [Less] is "path order when the two entries overlap in time, else by time",
     which is not a strict weak order, so the result of [sort.Sort] depends on the algorithm.
@@ -37,9 +37,16 @@ Local Open Scope Z_scope.
 
 Definition MinInt64 : Z := -9223372036854775808.
 Definition MaxInt64 : Z := 9223372036854775807.
-(** int64 [t-1] / [t+1] with wrap-around *)
-Definition sub1_64 (t : Z) : Z := if t =? MinInt64 then MaxInt64 else t - 1.
-Definition add1_64 (t : Z) : Z := if t =? MaxInt64 then MinInt64 else t + 1.
+(** The initial read range of a location in [FileStore.locations]:
+    ascending [(MinInt64, t-1)], descending [(t+1, MaxInt64)]; where [t-1] / [t+1] would wrap
+    (t = MinInt64 ascending, t = MaxInt64 descending) the code starts with the EMPTY range
+    [(MaxInt64, MinInt64)]. *)
+Definition init_rmin (asc : bool) (t : Z) : Z :=
+  if asc then (if t =? MinInt64 then MaxInt64 else MinInt64)
+  else (if t =? MaxInt64 then MaxInt64 else t + 1).
+Definition init_rmax (asc : bool) (t : Z) : Z :=
+  if asc then (if t =? MinInt64 then MinInt64 else t - 1)
+  else (if t =? MaxInt64 then MinInt64 else MaxInt64).
 
 Section KeyCursor.
   Context {V : Type}.
@@ -79,8 +86,8 @@ Section KeyCursor.
     else if asc && (b_max b <? t) then []
     else if negb asc && (b_min b >? t) then []
     else [ {| l_file := fi; l_min := b_min b; l_max := b_max b; l_data := b_data b; l_tombs := ts;
-              l_rmin := if asc then MinInt64 else add1_64 t;
-              l_rmax := if asc then sub1_64 t else MaxInt64 |} ].
+              l_rmin := init_rmin asc t;
+              l_rmax := init_rmax asc t |} ].
 
   Definition file_locs (asc : bool) (t : Z) (fi : nat) (f : tfile) : list loc :=
     if asc && (f_tmax f <? t) then []
